@@ -75,7 +75,8 @@ def run_mef(kw):
             sub = list(m.original_graph_copy.edges())
             cap["subset"] = sub
             cap["opt"] = first["objective_value"] if first else None
-            cap["nvals"] = len(set(first["graph"][u][v].get(m.flow_attr, 0) for (u, v) in sub)) if first else None
+            # be46679: the number of value slots = number of distinct values of the first solution itself (edge_sol)
+            cap["nvals"] = len(set(m.edge_sol[(u, v)] for (u, v) in sub))
         caps.append(cap)
         lpdump.reset()
     lpdump.reset()
@@ -323,12 +324,46 @@ def bottleneck_family(ctx):
                         ctx.count("E2_bottleneck_witness", "not_worse_than_witness")
 
 
+def node_starts_ends_family(ctx):
+    """Deterministic family (run on every call): node-weighted chains/diamonds with an INTERNAL additional end (start): the flow
+    may end after (start before) passing through that node, so a(10) -> b(10) -> c(2) with additional_ends=['b'] is already a
+    flow (distance 0).  DAG and cyclic variants (on cyclic graphs the additional nodes are documented not to apply), int/float."""
+    for big, small in ((10, 2), (6, 1), (2.5, 0.5)):
+        for which in ("end", "start", "both"):
+            for shape in ("chain", "diamond", "cycle"):
+                is_int = isinstance(big, int)
+                G = nx.DiGraph()
+                if which == "start":
+                    vals = {"a": small, "b": big, "c": big}
+                elif which == "end":
+                    vals = {"a": big, "b": big, "c": small}
+                else:
+                    vals = {"a": small, "b": big, "c": small}
+                for v, x in vals.items():
+                    G.add_node(v, flow=x)
+                G.add_edge("a", "b"); G.add_edge("b", "c")
+                if shape == "diamond":
+                    G.add_node("d", flow=small); G.add_edge("a", "d"); G.add_edge("d", "c")
+                if shape == "cycle":
+                    G.add_edge("c", "b")
+                kw = dict(G=G, flow_attr="flow", flow_attr_origin="node", weight_type=int if is_int else float,
+                          elements_to_ignore=[], error_scaling={},
+                          additional_starts=["b"] if which in ("start", "both") else [],
+                          additional_ends=["b"] if which in ("end", "both") else [])
+                info = {"scale": 1 if is_int else 0.5, "acyclic": shape != "cycle", "is_int": is_int}
+                rep = {"class": "MinErrorFlow", "args": describe(kw), "scale": str(info["scale"]), "family": "node additional starts/ends"}
+                ctx.dist("node-starts/ends family " + shape)
+                one_case(ctx, kw, info, rep)
+                ctx.case(["node-starts-ends", describe(kw)], nontrivial=True)
+
+
 def run(ctx):
     e1misc.install()
     ctx.rule = ("MinErrorFlow on random DAGs (<= 5 nodes) and cyclic digraphs (<= 6 nodes) with <= 6 edges, values 0..6 (int) or dyadic floats, "
                 "edges without the attribute (ignored), ignore lists, error scalings {0, 1/4, 1/2, 1}, additional starts/ends, sparsity lambda (DAGs), "
-                "few_flow_values_epsilon {0, 1/4, 1/2, 1, 2}; every 4th case node-weighted; plus the deterministic bottleneck family (k in-edges, one bottleneck, k out-edges; optimum raises the bottleneck above the largest weight) compared with its explicit witness flow; non-trivial = >= 1 conservation row and >= 1 charged edge")
+                "few_flow_values_epsilon {0, 1/4, 1/2, 1, 2}; every 4th case node-weighted; node-weighted instances with additional starts/ends (random and a deterministic chain/diamond/cycle family with an internal additional start/end); plus the deterministic bottleneck family (k in-edges, one bottleneck, k out-edges; optimum raises the bottleneck above the largest weight) compared with its explicit witness flow; non-trivial = >= 1 conservation row and >= 1 charged edge")
     bottleneck_family(ctx)
+    node_starts_ends_family(ctx)
     n = ctx.budget(700, 10000)
     for i in range(n):
         rng = ctx.rng("mef", i)
